@@ -1274,29 +1274,13 @@ impl App {
         }
         .wrap_err("failed to parse data items")?;
 
-        let mut all_events = if let Some(extended_commit_info_with_proof) =
-            &expanded_block_data.extended_commit_info_with_proof
-        {
-            let extended_commit_info = extended_commit_info_with_proof.extended_commit_info();
-            self.metrics.record_extended_commit_info_bytes(
-                extended_commit_info_with_proof
-                    .encoded_extended_commit_info()
-                    .len(),
-            );
-            let mut state_tx: StateDelta<Arc<StateDelta<Snapshot>>> =
-                StateDelta::new(self.state.clone());
-            vote_extension::apply_prices_from_vote_extensions(
-                &mut state_tx,
-                extended_commit_info,
-                finalize_block.time.into(),
-                finalize_block.height.value(),
-            )
-            .await
-            .wrap_err("failed to apply prices from vote extensions")?;
-            self.apply(state_tx)
-        } else {
-            vec![]
-        };
+        // The prices carried by the extended commit info are applied *after* the block's
+        // transactions have been executed (see below). When the execution cached during the
+        // proposal phase is reused, the transactions have already been executed without the
+        // prices; applying the prices afterwards is the only order that is the same whether or
+        // not this node executed the block before `finalize_block`.
+        let extended_commit_info_with_proof =
+            expanded_block_data.extended_commit_info_with_proof.clone();
 
         // FIXME: refactor to avoid cloning the finalize block
         let finalize_block_arc = Arc::new(finalize_block.clone());
@@ -1380,6 +1364,30 @@ impl App {
             .await
             .wrap_err("failed to run post execute transactions handler")?;
         }
+
+        let mut all_events = if let Some(extended_commit_info_with_proof) =
+            &extended_commit_info_with_proof
+        {
+            let extended_commit_info = extended_commit_info_with_proof.extended_commit_info();
+            self.metrics.record_extended_commit_info_bytes(
+                extended_commit_info_with_proof
+                    .encoded_extended_commit_info()
+                    .len(),
+            );
+            let mut state_tx: StateDelta<Arc<StateDelta<Snapshot>>> =
+                StateDelta::new(self.state.clone());
+            vote_extension::apply_prices_from_vote_extensions(
+                &mut state_tx,
+                extended_commit_info,
+                finalize_block.time.into(),
+                finalize_block.height.value(),
+            )
+            .await
+            .wrap_err("failed to apply prices from vote extensions")?;
+            self.apply(state_tx)
+        } else {
+            vec![]
+        };
 
         let PostTransactionExecutionResult {
             events,
